@@ -22,7 +22,7 @@ LEVEL = "exploration"
 RULE = (
     "one case = (data matrix over the alphabet, cost variant or user cost); for it EVERY admissible 3-point cut "
     "(s<k<e) and 4-point cut (s<a<b<e) is scored by every applicable adapter, in one batch in increasing and in "
-    "decreasing order, and compared with the defining identity. Table family: every cost table over {0,1,2} on "
+    "decreasing order, in sandwich batches [a, all cuts, a] and in single-row calls, and compared with the defining identity. Table family: every cost table over {0,1,2} on "
     "n=3 (quick) / n<=4 (thorough). Non-trivial = the matrix is not constant in every column."
 )
 ASSUMPTIONS = [
@@ -168,10 +168,20 @@ def one_variant(acc, case, key, V, Xf, rows, n, p):
         if out.shape != (len(c3), w):
             acc.violation("score-shape", case, f"ChangeScore output shape {out.shape} != {(len(c3), w)}", key)
             return tab
+        # sandwich batches [a, all cuts, a] (first and last row equal, other rows in between) and single-row calls
+        sand = []
+        for a in {c3[0], c3[len(c3) // 2], c3[-1]}:
+            sand.append(cs.evaluate(np.array([a] + c3 + [a]))[1:-1])
+        single = np.array([cs.evaluate(np.array([c]))[0] for c in c3[:: max(1, len(c3) // 6)]])
         for i, (s, k, e) in enumerate(c3):
             full, left, right = tab[(s, e)], tab[(s, k)], tab[(k, e)]
             want = full - left - right
             tol = scale(full, left, right)
+            if any(np.any(np.abs(sb[i] - want) > tol) for sb in sand) or (
+                    i % max(1, len(c3) // 6) == 0 and np.any(np.abs(single[i // max(1, len(c3) // 6)] - want) > tol)):
+                acc.violation("change-score-batch-dependence", dict(case, cut=[s, k, e]),
+                              f"ChangeScore({V.name}) on {(s, k, e)}: value depends on the other rows of the batch (sandwich / single-row call) -- expected {want!r}", key)
+                return tab
             if np.any(np.abs(out[i] - want) > tol) or np.any(np.abs(out_r[i] - want) > tol):
                 acc.violation("change-score-identity", dict(case, cut=[s, k, e]),
                               f"ChangeScore({V.name}) on {(s, k, e)} = {out[i]!r}, C(s,e)-C(s,k)-C(k,e) = {want!r}", key)
@@ -195,10 +205,11 @@ def one_variant(acc, case, key, V, Xf, rows, n, p):
             if out.shape != (len(ivs), w):
                 acc.violation("score-shape", case, f"Saving output shape {out.shape} != {(len(ivs), w)}", key)
                 return tab
+            sand = sv.evaluate(np.array([ivs[-1]] + ivs + [ivs[-1]]))[1:-1]
             for i, iv in enumerate(ivs):
                 want = tab[iv] - otab[iv]
                 tol = scale(tab[iv], otab[iv])
-                if np.any(np.abs(out[i] - want) > tol):
+                if np.any(np.abs(out[i] - want) > tol) or np.any(np.abs(sand[i] - want) > tol):
                     acc.violation("saving-identity", dict(case, interval=list(iv)),
                                   f"Saving({V.name}) on {iv} = {out[i]!r}, C_fixed - C_optimal = {want!r}", key)
                     return tab
@@ -237,8 +248,13 @@ def one_variant(acc, case, key, V, Xf, rows, n, p):
             if out.shape != (len(good), w):
                 acc.violation("score-shape", case, f"LocalAnomalyScore output shape {out.shape} != {(len(good), w)}", key)
                 return tab
+            sand = [ls.evaluate(np.array([a] + good + [a]))[1:-1] for a in {good[0], good[-1]}]
             for i, c in enumerate(good):
                 want, tol = wants[i]
+                if any(np.any(np.abs(sb[i] - want) > tol) for sb in sand):
+                    acc.violation("local-score-batch-dependence", dict(case, cut=list(c)),
+                                  f"LocalAnomalyScore({V.name}) on {c}: value depends on the other rows of the batch; expected {want!r}", key)
+                    return tab
                 if np.any(np.abs(out[i] - want) > tol) or np.any(np.abs(out_r[i] - want) > tol):
                     acc.violation("local-score-identity", dict(case, cut=list(c)),
                                   f"LocalAnomalyScore({V.name}) on {c} = {out[i]!r} (reverse batch {out_r[i]!r}), C(s,e)-C(a,b)-C(pooled) = {want!r}", key)
